@@ -431,6 +431,12 @@ fn gen_table(rng: &mut Rng, n: usize, method: &str, exact_avg: bool) -> (Vec<u32
             t.push(v);
         }
     }
+    if rng.chance(1, 8) && !t.is_empty() {
+        // one pair at the largest finite distance (bit pattern of f32::MAX)
+        let i = rng.below(t.len() as u64) as usize;
+        t[i] = 0x7f7f_ffff;
+        return (t, "with-f32-max");
+    }
     if rng.chance(1, 6) && !t.is_empty() {
         // one pair of different sets at distance exactly 0
         let i = rng.below(t.len() as u64) as usize;
